@@ -24,13 +24,14 @@ REPLAYS = os.path.join(VERIF, "replays")
 EVIDENCE = os.path.join(VERIF, "evidence")
 HARNESS_DIR = os.path.join(VERIF, "harness")
 # Instance mode (a tool for mutation testing, never used by the registered commands): with VERIF_INSTANCE=<name> and
-# VERIF_REPO=<scratch copy of the repository> everything a run writes goes under .build/inst/<name> and .work/inst/<name>,
+# VERIF_REPO=<scratch copy of the repository> everything a run writes goes under /tmp/verif_inst/<name>/{build,work},
 # and the harness is built from a copy of harness/ whose path dependency points at VERIF_REPO, so that several trees can be
 # checked side by side without touching /repo, /verif/evidence or /verif/replays.
 INSTANCE = os.environ.get("VERIF_INSTANCE")
 if INSTANCE:
-    BUILD = os.path.join(VERIF, ".build", "inst", INSTANCE)
-    WORK = os.path.join(VERIF, ".work", "inst", INSTANCE)
+    INST_ROOT = os.environ.get("VERIF_INSTANCE_ROOT", "/tmp/verif_inst")      # scratch: outside /repo and /verif
+    BUILD = os.path.join(INST_ROOT, INSTANCE, "build")
+    WORK = os.path.join(INST_ROOT, INSTANCE, "work")
     REPLAYS = os.path.join(WORK, "replays")
     EVIDENCE = os.path.join(WORK, "evidence")
     HARNESS_SRC = HARNESS_DIR
